@@ -1,7 +1,7 @@
 (* C09 — the file is append-only and read paths never write (static part: over the call
    graph regenerated from the Go source by tools/gen on every run). *)
 From Coq Require Import String.
-From GK Require Import Base Generated CallGraph.
+From GK Require Import Base Treap Store Codec CodecProofs Disk DiskProofs DiskCor Generated CallGraph.
 
 (* no call path from a read-only API entry point reaches a function that calls WriteAt/Truncate *)
 Theorem c09_static_read_paths : forall e w f,
@@ -15,3 +15,19 @@ Theorem c09_write_sites :
   ["Store.FlushRevert"; "Store.ItemValWrite"; "Store.writeRoots"; "itemLoc.write"; "nodeLoc.write"]%string.
 Proof. exact CallGraph.write_sites. Qed.
 Print Assumptions c09_write_sites.
+
+(* dynamic part, on the byte-level model of Flush: every write lands at or beyond the store size (the end of
+   the last durable root record), so no byte below that point is ever modified *)
+Theorem c09_flush_appends : forall f size cs f' size' cs',
+  Forall (coll_ok f size) cs -> 0 <= size <= blen f -> flush_bytes f size cs = (f', size', cs') ->
+  size' < two63 -> roots_len + blen (enc_json (root_map cs')) < two32 -> blen f' = size' ->
+  Forall (fun nc => NoDup (node_offs (c_tree (snd nc)))) cs ->
+  agree f f' size.
+Proof. exact DiskCor.flush_appends. Qed.
+Print Assumptions c09_flush_appends.
+
+(* FlushRevert truncates only to the end of a valid root record or to zero length *)
+Theorem c09_truncate_only_to_root : forall f size f' e m, revert_bytes f size = (f', e, m) ->
+  (e = 0 /\ f' = [] /\ m = []) \/ (root_at f e = Some m /\ f' = firstn (Z.to_nat e) f /\ e <= size).
+Proof. exact DiskCor.revert_truncates_to_root. Qed.
+Print Assumptions c09_truncate_only_to_root.
